@@ -497,6 +497,7 @@ func c05Run(c *vlib.Ctx, idx int) {
 	s.Master.OnLaunch = func(t *simmesos.LaunchedTask) simmesos.LaunchPlan {
 		return simmesos.LaunchPlan{Kind: "running", Delay: 30 * time.Millisecond}
 	}
+	s.Master.OfferDelay = offerDelay()
 	crashed := false
 	defer func() {
 		if debugOn() {
@@ -524,14 +525,20 @@ func c05Run(c *vlib.Ctx, idx int) {
 		c.Count("deployments_succeeded", 1)
 	}
 	flushSeq := int64(-1)
-	if s.CoreAlive() && s.CoreCrash() == "" {
+	if len(unansweredAtRevive(s.Master)) == 0 && s.CoreAlive() && s.CoreCrash() == "" {
 		mark := s.Master.Note("FLUSH_PHASE", nil)
 		atomic.StoreInt32(&phase, 1)
-		ctx, cancel = coresim.Ctx(120 * time.Second)
+		ctx, cancel = coresim.Ctx(90 * time.Second)
 		t1 := time.Now()
 		_, ferr := s.Client.NewEnvironment(ctx, &pb.NewEnvironmentRequest{WorkflowTemplate: flush.Name, Vars: map[string]string{}})
 		cancel()
 		obs.Steps = append(obs.Steps, fmt.Sprintf("NewEnvironment(flush) err=%q in %s", truncate(grpcMsg(ferr), 200), time.Since(t1).Round(time.Millisecond)))
+		if strings.Contains(grpcMsg(ferr), "DeadlineExceeded") {
+			// a later creation request that never starts its deployment: the previous request still holds the
+			// deployment lock. Not this property's subject; reported so that it is not lost.
+			c.Count("later_creation_blocked", 1)
+			obs.Steps = append(obs.Steps, "blocked goroutines: "+truncate(s.DumpGoroutines(), 4000))
+		}
 		for _, rec := range s.Master.Log() {
 			if rec.Seq > mark && rec.Kind == "call" && rec.Type == "REVIVE" {
 				flushSeq = rec.Seq
@@ -743,29 +750,31 @@ func c05Run(c *vlib.Ctx, idx int) {
 			c.Count("tight_offers_used", 1)
 		}
 	}
-	// 6. offers that are not used are declined
-	if flushSeq > 0 {
-		for _, o := range offers {
-			if o.Seq > flushSeq {
-				continue
-			}
+	// 6. offers that are not used are declined. A deployment request sends its REVIVE only after the
+	// previous request's offers round has reported its outcome, which the OFFERS handler does after its
+	// DECLINE call; offers are only ever sent in answer to a REVIVE. So when a REVIVE arrives, every offer
+	// sent before it has been through its handler: one that is still unanswered then was not declined.
+	unanswered := unansweredAtRevive(s.Master)
+	for _, u := range unanswered {
+		viol("DECLINE", "unused-offer-never-answered", fmt.Sprintf("offer %s of %s (sent at seq %d) was neither accepted nor declined when the next deployment request arrived (REVIVE at seq %d)", u.offer, u.host, u.offerSeq, u.reviveSeq))
+		break
+	}
+	lastRevive := lastReviveSeq(s.Master)
+	for _, o := range offers {
+		if o.Seq < lastRevive {
 			c.Count("offers_judged_for_decline", 1)
-			if o.Outcome == "" {
-				viol("DECLINE", "unused-offer-never-answered", fmt.Sprintf("offer %s of %s was neither accepted nor declined although the deployment request it belonged to was finished (a later deployment request had started)", o.ID, o.Hostname))
-			}
 			if len(perOffer[o.ID]) == 0 {
 				c.Count("unused_offers", 1)
 			}
 		}
-		declineOnly := 0
-		for _, rec := range s.Master.Log() {
-			if rec.Kind == "call" && rec.Type == "DECLINE" && rec.Seq < flushSeq {
-				declineOnly++
-			}
+	}
+	for _, rec := range s.Master.Log() {
+		if rec.Kind == "call" && rec.Type == "DECLINE" && rec.Seq < lastRevive {
+			c.Count("decline_calls", 1)
 		}
-		c.Count("decline_calls", int64(declineOnly))
-	} else if !crashed {
-		c.Inconclusive(fmt.Sprintf("scenario %d: the flush deployment request never reached the master; unanswered offers cannot be judged (steps: %s)", idx, strings.Join(obs.Steps, " | ")))
+	}
+	if flushSeq < 0 && len(unanswered) == 0 && !crashed {
+		c.Inconclusive(fmt.Sprintf("scenario %d: the flush deployment request never reached the master; the last offers round cannot be judged for declines (steps: %s)", idx, strings.Join(obs.Steps, " | ")))
 	}
 	if sc.Flavour == "host-absent" && !crashed {
 		c.Count("rounds_abandoned_for_absent_host", 1)
@@ -791,6 +800,58 @@ func mergedInbound(tr *roleSpec) []chanSpec {
 		if !seen[ch.Name] {
 			seen[ch.Name] = true
 			out = append(out, ch)
+		}
+	}
+	return out
+}
+
+type unansweredOffer struct {
+	offer, host         string
+	offerSeq, reviveSeq int64
+}
+
+func lastReviveSeq(m *simmesos.Master) int64 {
+	last := int64(0)
+	for _, rec := range m.Log() {
+		if rec.Kind == "call" && rec.Type == "REVIVE" && rec.Status == 202 {
+			last = rec.Seq
+		}
+	}
+	return last
+}
+
+// unansweredAtRevive lists offers that had been sent, and not been mentioned in any
+// ACCEPT or DECLINE call, when a later REVIVE call arrived.
+func unansweredAtRevive(m *simmesos.Master) []unansweredOffer {
+	log := m.Log()
+	answered := map[string]int64{}
+	for _, rec := range log {
+		if rec.Kind == "call" && (rec.Type == "ACCEPT" || rec.Type == "DECLINE") && rec.Status == 202 {
+			if ids, ok := rec.F["offers"].([]string); ok {
+				for _, id := range ids {
+					if _, seen := answered[id]; !seen {
+						answered[id] = rec.Seq
+					}
+				}
+			}
+		}
+	}
+	var out []unansweredOffer
+	seen := map[string]bool{}
+	for _, rv := range log {
+		if rv.Kind != "call" || rv.Type != "REVIVE" || rv.Status != 202 {
+			continue
+		}
+		for _, o := range log {
+			if o.Kind != "event" || o.Type != "OFFER" || o.Seq > rv.Seq {
+				continue
+			}
+			id, _ := o.F["offer"].(string)
+			host, _ := o.F["host"].(string)
+			if a, ok := answered[id]; (!ok || a > rv.Seq) && !seen[id] {
+				seen[id] = true
+				out = append(out, unansweredOffer{id, host, o.Seq, rv.Seq})
+			}
 		}
 	}
 	return out
